@@ -58,7 +58,8 @@ func piecesCoq(ps []linker.VerifPiece) string {
 
 // random intermediate output: text, valid keys, keys with an index out of
 // range, malformed keys (wrong kind letter, a non-digit, truncated)
-func randOutput(r *Rng, prefix string, nf, nc int) (string, int) {
+func randOutput(r *Rng, prefix string, nf, nc int) (string, int, bool) {
+	clean := len(prefix) >= 16 && prefix != "PREFIXPREFIXPREF"
 	var sb strings.Builder
 	valid := 0
 	segs := r.Range(0, 6)
@@ -74,14 +75,17 @@ func randOutput(r *Rng, prefix string, nf, nc int) (string, int) {
 				valid++
 			}
 		case c < 13: // index out of range (first invalid one ends the scan)
+			clean = false
 			if r.Bool() {
 				fmt.Fprintf(&sb, "%sA%08d", prefix, nf+r.Intn(3))
 			} else {
 				fmt.Fprintf(&sb, "%sC%08d", prefix, nc+r.Intn(3))
 			}
 		case c == 13:
+			clean = false
 			fmt.Fprintf(&sb, "%s%c%08d", prefix, "BDac0"[r.Intn(5)], r.Intn(3))
 		case c == 14:
+			clean = false
 			d := fmt.Sprintf("%08d", r.Intn(3))
 			pos := r.Intn(8)
 			d = d[:pos] + string(" x/:"[r.Intn(4)]) + d[pos+1:]
@@ -89,15 +93,19 @@ func randOutput(r *Rng, prefix string, nf, nc int) (string, int) {
 		case c == 15: // truncated at the very end
 			key := fmt.Sprintf("%sC%08d", prefix, r.Intn(nc+1))
 			sb.WriteString(key[:len(prefix)+r.Intn(9)])
-			return sb.String(), valid
+			return sb.String(), valid, false
 		case c == 16: // prefix twice
+			clean = false
 			sb.WriteString(prefix)
 		case c == 17:
+			clean = false
 			fmt.Fprintf(&sb, "%sC%09d", prefix, r.Intn(nc+1))
 		}
 	}
-	sb.WriteString(randText(r, prefix))
-	return sb.String(), valid
+	if r.Chance(70) {
+		sb.WriteString(randText(r, prefix))
+	}
+	return sb.String(), valid, clean
 }
 
 var mockFS = fs.MockFS(map[string]string{}, fs.MockUnix, "/")
@@ -108,7 +116,7 @@ func piecesCases(r *Rng, n int, cf *CoqFile, st *Stats) {
 	for i := 0; i < n; i++ {
 		prefix := randPrefix(r)
 		nf, nc := r.Intn(5), r.Intn(5)
-		out, valid := randOutput(r, prefix, nf, nc)
+		out, valid, clean := randOutput(r, prefix, nf, nc)
 		files := make([]linker.VerifFile, nf)
 		chunks := make([]linker.VerifChunk, nc)
 		v := linker.VerifNewLinker(mockFS, "/out", "", prefix, files, chunks)
@@ -125,6 +133,9 @@ func piecesCases(r *Rng, n int, cf *CoqFile, st *Stats) {
 		if i < 2 {
 			st.Sample(map[string]interface{}{"break": out, "prefix": prefix, "pieces": len(ps)})
 		}
+		if !has && clean && valid > 0 {
+			st.Fail("placeholder-survives-substitution", map[string]interface{}{"scenario": "joiner-kept-although-keys-present", "prefix": prefix, "output": out}, "joiner kept", "pieces")
+		}
 		// property predicate on the real code: re-inserting the keys gives the output back
 		if has {
 			var sb strings.Builder
@@ -135,6 +146,15 @@ func piecesCases(r *Rng, n int, cf *CoqFile, st *Stats) {
 					fmt.Fprintf(&sb, "%sA%08d", prefix, p.Index)
 				case 2:
 					fmt.Fprintf(&sb, "%sC%08d", prefix, p.Index)
+				}
+			}
+			// every key of an output that contains only well-formed keys must be recognised
+			if clean && valid > 0 {
+				for _, p := range ps {
+					if strings.Contains(string(p.Data), prefix) {
+						st.Fail("placeholder-survives-substitution", map[string]interface{}{"scenario": "well-formed-key-not-recognised", "prefix": prefix, "nfiles": nf, "nchunks": nc, "output": out}, string(p.Data), "no data piece contains the prefix")
+						break
+					}
 				}
 			}
 			if sb.String() != out {
@@ -174,7 +194,7 @@ func piecesCases(r *Rng, n int, cf *CoqFile, st *Stats) {
 		if has {
 			// pieces as the linker makes them (from a real break) or arbitrary piece lists
 			if r.Bool() {
-				out, _ := randOutput(r, prefix, nf, nc)
+				out, _, _ := randOutput(r, prefix, nf, nc)
 				_, ps = v.BreakOutputIntoPieces([]byte(out))
 			} else {
 				k := r.Range(1, 5)
